@@ -240,3 +240,9 @@ def reuse_branch_returns_numpy(v):
 
 
 CLASSIFIERS = {"reuse_branch_returns_numpy": reuse_branch_returns_numpy}
+
+
+def waivers(counters):
+    if counters.get("solver_recorder_hits", 0) == 0:  # solver reached through another API: the reuse-direction oracle decides
+        return {"solver_recorder_hits", "schedule_recompute_calls_checked", "schedule_reuse_calls_checked"}
+    return set()
